@@ -646,3 +646,5 @@ def run(chk):
     reachable_types(chk, F, m, 3 if chk.tier == "quick" else 4)
     chk.extra["table_rows"] = rows
     chk.extra["exhaustive"] = True
+    from . import ctors
+    chk.guard("R05.4", "typed-constructors", ctors.check_typed_constructors, chk, F, "R05.4")
